@@ -113,7 +113,7 @@ pub fn sc_ints() -> Vec<U> {
         U::pow2(261).rem(&l),
         U::pow2(260).rem(&l).add(&one),
         U::pow2(260).rem(&l).sub(&one),
-        U::pow2(520).rem(&l),
+        U::pow2(260).rem(&l).mul(&U::pow2(260).rem(&l)).rem(&l),
         l.sub(&one).shr(1),
         l.add(&one).shr(1),
         U::from_u64(8),
@@ -161,4 +161,76 @@ pub fn msg_lens() -> Vec<usize> {
 
 pub fn msg_of_len(n: usize, salt: u8) -> Vec<u8> {
     (0..n).map(|i| (i as u8).wrapping_mul(31).wrapping_add(salt)).collect()
+}
+
+// ------------------------------------------------------------------------------------------
+// digit-transducer alphabets (scalars below 2^255, possibly >= l)
+// ------------------------------------------------------------------------------------------
+
+fn from_windows(w: usize, windows: &[u64]) -> U {
+    let mut x = U::ZERO;
+    for (i, v) in windows.iter().enumerate() {
+        if w * i >= 255 {
+            break;
+        }
+        let room = (255 - w * i).min(w);
+        let v = v & ((1u64 << room) - 1);
+        x = x.add(&U::from_u64(v).shl(w * i));
+    }
+    x
+}
+
+/// A-DIGITw: for every (window index, carry-in, window value, background) a scalar whose
+/// radix-2^w recoding passes through that transducer state.  `full` = all window values,
+/// otherwise the boundary ones.
+pub fn digit_scalars(w: usize, backgrounds: &[u64], full: bool) -> Vec<U> {
+    let n = (255 + w - 1) / w;
+    let half = 1u64 << (w - 1);
+    let mask = (1u64 << w) - 1;
+    let vals: Vec<u64> = if full {
+        (0..=mask).collect()
+    } else {
+        let mut v = vec![0, 1, half - 1, half, half + 1, mask - 1, mask];
+        v.retain(|x| *x <= mask);
+        v.dedup();
+        v
+    };
+    let mut out = Vec::new();
+    for &bg in backgrounds {
+        for i in 0..n {
+            for carry in [false, true] {
+                if carry && i == 0 {
+                    continue;
+                }
+                for &v in &vals {
+                    let mut win = vec![bg & mask; n];
+                    win[i] = v;
+                    if i > 0 {
+                        // previous window >= half produces a carry into window i, < half does not
+                        win[i - 1] = if carry { half } else { 0 };
+                    }
+                    out.push(from_windows(w, &win));
+                }
+            }
+        }
+    }
+    dedup(out)
+}
+
+/// A-NAF(w): every start position x window value x background, below 2^255.
+pub fn naf_scalars(w: usize, positions: &[usize], full: bool) -> Vec<U> {
+    let mask = (1u64 << w) - 1;
+    let vals: Vec<u64> = if full { (1..=mask).collect() } else { vec![1, 3, (1 << (w - 1)) - 1, (1 << (w - 1)) + 1, mask] };
+    let mut out = Vec::new();
+    let ones = U::pow2(255).sub(&U::ONE);
+    for &pos in positions {
+        for &v in &vals {
+            let win = U::from_u64(v).shl(pos).low_bits(255);
+            out.push(win);
+            // background all ones outside the window
+            let hole = U::from_u64(mask).shl(pos).low_bits(255);
+            out.push(ones.sub(&hole).add(&win));
+        }
+    }
+    dedup(out)
 }
